@@ -139,3 +139,23 @@ def path_event_set(body, fb, cfg, entry, exits, make_events, overrides=None, lim
         if feasible:
             out.append((tuple(seq), p))
     return out
+
+
+def path_preds(body, org, p):
+    """(cond origin, truth) for every two-way bool switch on the path"""
+    out = []
+    for i, bi in enumerate(p[:-1]):
+        t = body.blocks[bi]["term"]
+        if t["k"] == "switch" and t["xty"] == "bool":
+            nxt = p[i + 1]
+            vals = [int(v) for v, bb in t["arms"] if bb == nxt]
+            if vals:
+                truth = vals[0] != 0
+            elif t["otherwise"] == nxt:
+                truth = 0 in {int(v) for v, _ in t["arms"]}
+            else:
+                continue
+            out.append((simplify(org.of_operand(t["x"], bi, "t")), truth, t["span"]["at"]))
+    return out
+
+
